@@ -380,11 +380,13 @@ class Report:
     # ---- finish
 
     def finish(self):
-        # floors: a rule that matched fewer instances than confirmed by hand is an analysis failure
+        # floors: a rule that matched fewer instances than confirmed by hand is an analysis failure - unless the run already
+        # found an unlisted violation, which is reported as such (the floor only guards against vacuous passes)
+        _known = {(k["rule"], k["key"]) for k in load_known() if k.get("property") == self.prop and k.get("status") == "known"}
+        has_violation = any(not o["ok"] and (o["rule"], o["key"]) not in _known for o in self.obligations)
         for rid, floor in self.floors.items():
-            # a rule that already produced an undischarged obligation is reported as such: the floor only guards against vacuous passes
-            if any(o["rule"] == rid and not o["ok"] for o in self.obligations):
-                continue
+            if has_violation:
+                break
             if self.counts.get(rid, 0) < floor:
                 raise AnalysisError(
                     f"rule {rid} matched {self.counts.get(rid, 0)} instances, below the floor {floor} confirmed by hand"
